@@ -5,7 +5,7 @@ quantify over.  A curve is a list of [x, y] Python floats.
 """
 import math
 
-FAMILIES = ('mrc', 'noisy', 'plateau', 'zeros', 'collinear', 'walk', 'constant', 'elbow')
+FAMILIES = ('mrc', 'noisy', 'plateau', 'zeros', 'collinear', 'walk', 'constant', 'elbow', 'offset')
 
 
 def _xs(rng, n, kind):
@@ -88,6 +88,12 @@ def gen_curve(rng, n, family=None, scale=True):
         ys = [v] * n
         if rng.random() < 0.3 and n > 2:
             ys[rng.randrange(n)] = v + rng.choice([1e-9, 1.0])
+    elif family == 'offset':
+        # a level plus a small variation (latencies around a base value, counters with a large offset)
+        base = rng.choice([1e2, 1e3, 1e4, 1e6, 1e8, 123456.0])
+        amp = rng.choice([1.0, 1.0, 10.0, 0.01]) * rng.uniform(0.5, 2)
+        for i in range(n):
+            ys.append(base + amp * (math.exp(-4.0 * i / n) + rng.uniform(-0.05, 0.05)))
     elif family == 'elbow':
         k = rng.randrange(1, max(2, n - 1))
         m1 = -rng.uniform(1, 20)
